@@ -367,19 +367,25 @@ def g_iso(rng):
                                                 rng.randint(0, 23), rng.randint(0, 59), rng.randint(0, 59))
 
 
+# strings that look like "no value" to some backend (Neo4j returns the word 'None' for an absent field)
+SENTINELS = ['', 'None', 'null', 'NULL', 'nan', 'NaN', 'True', 'False', '0', '[]', '{}', 'undefined']
+STRING_KWS = ('model', 'details', 'site', 'allocation_constraints', 'service_endpoint', 'controller_url',
+              'mirror_port', 'mirror_vlan', 'technology', 'boot_script')
+
+
 def gen_value(rng, kind, kw):
     I = Impl.get()
     if kw == 'name':
         return ['str', g_name(rng)]
     if kw == 'type':
         return ['enum', I.TYPE[kind].__name__, rng.choice(list(I.TYPE[kind])).name]
-    if kw in ('model', 'details', 'site', 'allocation_constraints', 'service_endpoint', 'controller_url',
-              'mirror_port', 'mirror_vlan', 'technology', 'boot_script'):
-        return ['str', g_text(rng)]
+    if kw in STRING_KWS:
+        # one time in five a string a backend might confuse with "no value"
+        return ['str', rng.choice(SENTINELS) if rng.random() < 0.2 else g_text(rng)]
     if kw == 'image_ref':
-        return ['str', g_text(rng, 1, 10)]           # may contain commas (split at the last comma)
+        return ['str', rng.choice(SENTINELS[1:]) if rng.random() < 0.15 else g_text(rng, 1, 10)]   # may contain commas
     if kw == 'image_type':
-        return ['str', g_text(rng, 1, 10, nocomma=True)]
+        return ['str', rng.choice(SENTINELS[1:]) if rng.random() < 0.15 else g_text(rng, 1, 10, nocomma=True)]
     if kw in ('capacities', 'capacity_allocations'):
         return ['caps', g_caps(rng)]
     if kw == 'capacity_hints':
@@ -616,6 +622,12 @@ class Flat(Stream):
         for k in KINDS:                       # every setter of every class at least twice per run
             for _ in range(2):
                 out.append({'k': k, 'id': 'id-' + g_name(rng), 'props': gen_props(rng, k, 'full', self.cover)})
+        # every string-valued property of every class holding a sentinel-looking string
+        for k in KINDS:
+            kws = [p for p in vocabulary(k) if p in STRING_KWS]
+            for j, sv in enumerate(SENTINELS[1:]):
+                if j % 3 == 0 or sv == 'None':
+                    out.append({'k': k, 'id': 'id-sent', 'props': [['name', ['str', 'sent-%d' % j]]] + [[p, ['str', sv]] for p in kws]})
         # JSON blobs whose encoding is exactly MAX_SIZE-1 / MAX_SIZE characters, given as object and as string
         # (MAX_SIZE+1 is refused by the blob's constructor: such a sliver cannot be built - counted, trivial)
         for p in BLOB:
@@ -1156,6 +1168,11 @@ class Element(Stream):
             k2 = [k for k in kinds if k != 'node'][len(out) % max(1, len(kinds) - 1)] if len(kinds) > 1 else 'node'
             out.append({'k': k2, 'ops': [['set', p, blob_spec(p, 0, True)], ['get', p], ['get', 'name']]})
             out.append({'k': 'node', 'ctor': [[p, blob_spec(p, 0, True)]], 'ops': [['get', p], ['get', 'site']]})
+        # sentinel-looking strings are values like any other
+        for k in kinds:
+            for p in [q for q in vocabulary(k) if q in STRING_KWS]:
+                sv = SENTINELS[1 + (len(out) % (len(SENTINELS) - 1))]
+                out.append({'k': k, 'ops': [['set', p, ['str', 'None']], ['get', p], ['set', p, ['str', sv]], ['get', p]]})
         # a returned value object modified in place must not change what later reads return
         for k in kinds:
             for p in vocabulary(k):
